@@ -165,7 +165,7 @@ let () =
         bump "histories";
         let kv = parse_kv (List.tl (split l)) in
         hist := List.assoc "id" kv; switch := (List.assoc "switch" kv = "1");
-        hist_meta := Printf.sprintf "gen=%s seed=%s" (List.assoc "gen" kv) (List.assoc "seed" kv);
+        hist_meta := Printf.sprintf "gen=%s seed=%s t0=%s" (List.assoc "gen" kv) (List.assoc "seed" kv) (try List.assoc "t0" kv with Not_found -> "");
         listeners := []; step_no := 0; cur_op := None; cur_st := []; pre_lines := [];
         (* the harness is a default build (no link flags) that links the application: the switch must be off *)
         if !switch && (try List.assoc "forced" kv <> "1" with Not_found -> true) then begin
